@@ -263,7 +263,11 @@ func (ex *Executor) evalIdent(name string, env *SpecEnv) (Val, error) {
 		if env.fr != nil {
 			fn = env.fr.fn
 		}
-		if nn := ex.renamedParam(fn, name); nn != "" {
+		nn := ex.renamedParam(fn, name)
+		if nn == "" && env.fr != nil {
+			nn = ex.renamedLocal(fn, name)
+		}
+		if nn != "" {
 			e2 := *env
 			e2.noRename = true
 			if v, err := ex.evalIdent(nn, &e2); err == nil {
